@@ -152,6 +152,26 @@ def leg_skeleton(progs, flavour, jobs=8):
 # ---------------------------------------------------------------------------------------------
 
 KILL_SET = "mkdir,mkdirat,openat,write,fallocate,ftruncate,renameat,renameat2,rename,unlink,unlinkat,linkat,symlinkat"
+# strace keeps the `when=N` counter PER SYSTEM CALL (and per thread): `inject=a,b:when=3` fires at the third `a` and at
+# the third `b`, whichever comes first.  A sweep over "the N-th call of the set" therefore never stops at, say, the one
+# write(2) of an index append that comes after three mkdirs.  The sweeps below go class by class instead: for every
+# system call of the set and every occurrence of it on any thread of the operation.
+KILL_CLASSES = ["mkdir", "mkdirat", "openat", "write", "fallocate", "ftruncate", "renameat", "renameat2", "rename", "unlink",
+                "unlinkat", "linkat", "symlinkat"]
+
+
+def kill_points(base, max_points=None):
+    """(syscall, n) for every occurrence n of every syscall of KILL_CLASSES on the busiest non-main thread."""
+    pids = list(base.counts_by_pid)
+    threads = pids[1:] if len(pids) > 1 else pids
+    pts = []
+    for nm in KILL_CLASSES:
+        mx = max([base.counts_by_pid[t].get(nm, 0) for t in threads] or [0])
+        pts += [(nm, n) for n in range(1, mx + 1)]
+    if max_points and len(pts) > max_points:
+        step = len(pts) / max_points
+        pts = [pts[int(i * step)] for i in range(max_points)]
+    return pts
 
 
 def content_valid_monitor(dump_line, where):
@@ -205,18 +225,10 @@ def leg_kill_sweep(cases, flavour, max_points=40, jobs=8):
         sc = fresh()
         base = T.run_traced(flavour, vops, scratch=sc, reuse=True, env_extra=W)
         shutil.rmtree(sc, ignore_errors=True)
-        names = KILL_SET.split(",")
-        pids = list(base.counts_by_pid)
-        threads = pids[1:] if len(pids) > 1 else pids
-        total = max([sum(base.counts_by_pid[t].get(nm, 0) for nm in names) for t in threads] or [0])
-        ns = list(range(1, total + 1))
-        if len(ns) > max_points:
-            step = len(ns) / max_points
-            ns = sorted(set(ns[int(i * step)] for i in range(max_points)))
-        for n in ns:
+        for n in kill_points(base, max_points):
             scratch = fresh()
             r = T.run_traced(flavour, vops, scratch=scratch, reuse=True, env_extra=W,
-                             inject=f"inject={KILL_SET}:signal=SIGKILL:when={n}", keep=False)
+                             inject=f"inject={n[0]}:signal=SIGKILL:when={n[1]}", keep=False)
             # look at what is left, with a fresh process
             key = case["key"]
             probe = ["dump c0", f"metadata s c0 {hx(key)}", f"metadata a c0 {hx(key)}", f"read s c0 {hx(key)}", "list c0"]
@@ -239,11 +251,11 @@ def leg_kill_sweep(cases, flavour, max_points=40, jobs=8):
             during_setup = False          # the setup ran (unharmed) in a process of its own
             vtxt = case["victim"] if isinstance(case["victim"], str) else " ; ".join(case["victim"])
             vlist = [case["victim"]] if isinstance(case["victim"], str) else case["victim"]
-            where = f"kill at syscall {n} of `{vtxt[:60]}`"
+            where = f"kill at {n[0]} #{n[1]} of `{vtxt[:60]}`"
             il = r2.impl_lines
             if len(il) < len(probe):
-                f = Failure("unusable_after_crash", n, f"{where}: inspection stopped after {len(il)} ops", sig={"victim": vtxt.split(' ')[0]})
-                f.replay_text = "\n".join(case["setup"] + vlist) + f"\n# killed with inject={KILL_SET}:signal=SIGKILL:when={n}\n"
+                f = Failure("unusable_after_crash", n[1], f"{where}: inspection stopped after {len(il)} ops", sig={"victim": vtxt.split(' ')[0]})
+                f.replay_text = "\n".join(case["setup"] + vlist) + f"\n# killed with inject={n[0]}:signal=SIGKILL:when={n[1]}\n"
                 failures.append(f)
                 continue
             fs_ = content_valid_monitor(il[0], where)
@@ -262,7 +274,7 @@ def leg_kill_sweep(cases, flavour, max_points=40, jobs=8):
                                           "what": f"the tree left by a real SIGKILL ({where}) is not among the model's crash states",
                                           "real": sorted(f"{k_}:{p_}:{len(b_)}" for k_, p_, b_ in real - best)[:8],
                                           "model": [f"{len(cs)} crash states; nearest differs in"] + sorted(f"{k_}:{p_}:{len(b_)}" for k_, p_, b_ in best - real)[:8],
-                                          "ops": case["setup"] + vlist + [f"# killed with inject={KILL_SET}:signal=SIGKILL:when={n}"]})
+                                          "ops": case["setup"] + vlist + [f"# killed with inject={n[0]}:signal=SIGKILL:when={n[1]}"]})
             # old or new
             old, new = case.get("old"), case.get("new")
             for j in (1, 2):
@@ -297,7 +309,7 @@ def leg_kill_sweep(cases, flavour, max_points=40, jobs=8):
             if w_after[0] != "ok" or r_after[0] != "ok" or unhx(r_after[1]) != b"after the crash":
                 fs_.append(Failure("unusable_after_crash", n, f"{where}: a later write to the same key is not visible ({' '.join(w_after[:2])} / {' '.join(r_after[:2])[:40]})"))
             for f in fs_:
-                f.replay_text = "\n".join(case["setup"] + vlist) + f"\n# killed with inject={KILL_SET}:signal=SIGKILL:when={n}; then:\n" + "\n".join(probe) + "\n"
+                f.replay_text = "\n".join(case["setup"] + vlist) + f"\n# killed with inject={n[0]}:signal=SIGKILL:when={n[1]}; then:\n" + "\n".join(probe) + "\n"
             failures += fs_
             states.add(hashlib.sha1(re.sub(r"time\D{1,6}\d+", "", il[0]).encode()).hexdigest())
             if len(samples) < 3:
@@ -422,14 +434,10 @@ def leg_observer_sweep(flavour, tier, jobs=8):
         base = T.run_traced(flavour, [case["victim"]], scratch=sc, reuse=True, env_extra=W)
         after = E.run_impl(flavour, "\n".join(case["observers"]) + "\n", scratch=sc, reuse=True)[0]
         shutil.rmtree(sc, ignore_errors=True)
-        names = KILL_SET.split(",")
-        pids = list(base.counts_by_pid)
-        threads = pids[1:] if len(pids) > 1 else pids
-        total = max([sum(base.counts_by_pid[t].get(nm, 0) for nm in names) for t in threads] or [0])
-        for n in range(1, total + 1):
+        for n in kill_points(base):
             scratch = fresh()
             r = T.run_traced(flavour, [case["victim"]], scratch=scratch, reuse=True, env_extra=W,
-                             inject=f"inject={KILL_SET}:signal=SIGKILL:when={n}")
+                             inject=f"inject={n[0]}:signal=SIGKILL:when={n[1]}")
             got = E.run_impl(flavour, "\n".join(case["observers"]) + "\n", scratch=scratch, reuse=True)[0]
             shutil.rmtree(scratch, ignore_errors=True)
             out.append((n, r, got))
@@ -442,7 +450,7 @@ def leg_observer_sweep(flavour, tier, jobs=8):
             if not r.killed:
                 continue
             points += 1
-            where = f"`{case['victim'][:40]}` ({case['name']}) stopped on entry to its mutating system call {n}"
+            where = f"`{case['victim'][:40]}` ({case['name']}) stopped at its {n[0]} #{n[1]}"
             for j, o in enumerate(case["observers"]):
                 g = norm_obs(got[j]) if j < len(got) else "missing"
                 allowed = {norm_obs(before[j]) if j < len(before) else "?", norm_obs(after[j]) if j < len(after) else "?"}
@@ -452,7 +460,7 @@ def leg_observer_sweep(flavour, tier, jobs=8):
                                 f"{norm_obs(before[j])[:50]}, after it {norm_obs(after[j])[:50]}",
                                 sig={"victim": case["victim"].split(" ")[0], "observer": o.split(" ")[0], "cold": case["cold"],
                                      "answer": E.rclass(g)})
-                    f.replay_text = "\n".join(case["setup"] + [case["victim"]]) + f"\n# stopped with inject={KILL_SET}:signal=SIGKILL:when={n} (DRIVE_WORKER=1); then:\n{o}\n"
+                    f.replay_text = "\n".join(case["setup"] + [case["victim"]]) + f"\n# stopped with inject={n[0]}:signal=SIGKILL:when={n[1]} (DRIVE_WORKER=1); then:\n{o}\n"
                     failures.append(f)
             if len(samples) < 3:
                 samples.append({"victim": case["victim"][:60], "stopped_at": n, "observers": [norm_obs(x)[:40] for x in got[:5]]})
